@@ -19,7 +19,7 @@ RULE = ('cases: (a) single-node scripts - a random node (station told nothing / 
         'destination kind from random stations (and, in 40 % of the trees, from an application on a router), cold, organically warmed and installed caches; observed: the complete ordered trace of '
         'frames on every LAN and deliveries, compared with the model world run on the same script.  non-trivial = at least one frame '
         'or delivery results; distinct by full script.  (c) tree-cert - for random trees with installed caches the hypotheses of the tree theorems '
-        '(internet_okb, tree_tob, tree_fromb: levels / up-ports / parent ports found by BFS in the harness) are evaluated inside Coq on the model world; expected 1.  (d) node-script-route-aware - node scripts run with settings.route_aware on: submissions to destinations that carry a route, and the route of every source shown.  The direct predicate runs its tree scenarios with route_aware off and on, submits concurrent histories (2..3 stations at opposite ends of cold lines/trees of 2..4 routers sending in the same instant), and also submits bursts: 2..4 packets for one remote network handed down in the same instant on cold trees.')
+        '(internet_okb, tree_tob, tree_fromb: levels / up-ports / parent ports found by BFS in the harness) are evaluated inside Coq on the model world; expected 1.  (d) node-script-route-aware - node scripts run with settings.route_aware on: submissions to destinations that carry a route, and the route of every source shown.  The direct predicate runs its tree scenarios with route_aware off and on, draws MACs from small per-LAN pools (values shared across LANs), runs warm-one-way/cold-other-way histories, submits concurrent histories (2..3 stations at opposite ends of cold lines/trees of 2..4 routers sending in the same instant), and also submits bursts: 2..4 packets for one remote network handed down in the same instant on cold trees.')
 TRUSTED = ['model coq/theories/Net.v written by hand after netservice.py:329-706, 878-1026 and vlan.py:55-131; tie = correspondence',
            'NPDUs are modelled in decoded form; the harness decodes LAN frames with its own decoder (c06_impl.npdu_decode); the NPCI codec is property C08',
            'RouterInfoCache is abstracted to its lookup function (snet, dnet) -> router MAC (coherent states only; property C19)']
@@ -339,6 +339,18 @@ def rnd_arrival(rng, ports, known):
     return ('arrive', i, rnd_mac(rng), dst, {'dadr': dadr, 'sadr': sadr, 'hop': hop, 'msg': msg, 'data': data})
 
 
+def reuse_macs(rng, events):
+    """MACs are unique per LAN only: let arriving frames come from link addresses that the cache already records as
+    routers (learned on whatever port)"""
+    learned = [e[2] for e in events if e[0] == 'learn']
+    out = []
+    for e in events:
+        if e[0] == 'arrive' and learned and rng.random() < 0.5:
+            e = (e[0], e[1], rng.choice(learned), e[3], e[4])
+        out.append(e)
+    return out
+
+
 def rnd_send(rng, ports):
     r = rng.random()
     net = rng.choice(NETPOOL + [n for n, _ in ports if n is not None])
@@ -363,7 +375,7 @@ def rnd_script(rng):
             events.append(rnd_send(rng, ports))
         else:
             events.append(rnd_arrival(rng, ports, known))
-    return ports, has_app, events
+    return ports, has_app, reuse_macs(rng, events)
 
 
 def grid_scripts():
@@ -481,46 +493,51 @@ class Topo:
         return Topo(nets, routers, modes, d.get('cyclic', False), d.get('apps', ()))
 
 
+def assign_macs(rng, order, router_nets, nstations):
+    """link addresses are unique per LAN only: every LAN draws the addresses of its router ports and stations from
+    its own small pool 1..(members+2), so that stations and routers on DIFFERENT networks routinely share MAC values.
+    order: network numbers; router_nets: [[net, ...]] per router; nstations: {net: count}.
+    Returns (nets, routers, modes)."""
+    members = {n: nstations[n] + sum(1 for r in router_nets for x in r if x == n) for n in order}
+    pools = {n: rng.sample(range(1, members[n] + 3), members[n]) for n in order}
+    routers = [[(n, bytes([pools[n].pop()])) for n in r] for r in router_nets]
+    nets = collections.OrderedDict()
+    modes = {}
+    for n in order:
+        nets[n] = []
+        for _ in range(nstations[n]):
+            mac = bytes([pools[n].pop()])
+            nets[n].append(mac)
+            modes[(n, mac)] = rng.choice(['net', 'net', 'addr', 'none'])
+    return nets, routers, modes
+
+
 def rnd_tree(rng, maxnets=8, apps=False):
     nnets = rng.randrange(2, maxnets + 1)
     numbers = rng.sample(range(1, 60), nnets)
-    nets = collections.OrderedDict()
-    nets[numbers[0]] = []
-    routers = []
+    order = [numbers[0]]
+    router_nets = []
     todo = numbers[1:]
-    rmac = 100
     while todo:
         k = min(len(todo), rng.choice([1, 1, 2, 3]))
-        base = rng.choice(list(nets))
+        base = rng.choice(order)
         new, todo = todo[:k], todo[k:]
-        rmac += 1
-        ports = [(base, bytes([rmac]))] + [(n, bytes([rmac])) for n in new]
+        ports = [base] + list(new)
         rng.shuffle(ports)
-        routers.append(ports)
-        for n in new:
-            nets[n] = []
-    modes = {}
-    for n in nets:
-        for m in rng.sample(range(1, 40), rng.randrange(1, 4)):
-            mac = bytes([m])
-            nets[n].append(mac)
-            modes[(n, mac)] = rng.choice(['net', 'net', 'addr', 'none'])
+        router_nets.append(ports)
+        order += list(new)
+    nstations = {n: rng.randrange(1, 4) for n in order}
+    nets, routers, modes = assign_macs(rng, order, router_nets, nstations)
     return Topo(nets, routers, modes, apps=[rng.randrange(len(routers))] if apps else ())
 
 
 def ring(rng, k, tail=False):
     numbers = rng.sample(range(1, 60), k + (1 if tail else 0))
-    nets = collections.OrderedDict((n, []) for n in numbers)
-    routers = []
-    for i in range(k):
-        routers.append([(numbers[i], bytes([101 + i])), (numbers[(i + 1) % k], bytes([101 + i]))])
+    router_nets = [[numbers[i], numbers[(i + 1) % k]] for i in range(k)]
     if tail:
-        routers.append([(numbers[0], bytes([120])), (numbers[k], bytes([120]))])
-    modes = {}
-    for n in nets:
-        for m in rng.sample(range(1, 40), rng.randrange(1, 3)):
-            nets[n].append(bytes([m]))
-            modes[(n, bytes([m]))] = rng.choice(['net', 'net', 'addr', 'none'])
+        router_nets.append([numbers[0], numbers[k]])
+    nstations = {n: rng.randrange(1, 3) for n in numbers}
+    nets, routers, modes = assign_macs(rng, numbers, router_nets, nstations)
     return Topo(nets, routers, modes, cyclic=True)
 
 
@@ -737,8 +754,13 @@ def check_send(net, topo, src, kind, dest, rec, payload, limit=WATCHDOG, reply=T
     apdu = b'\x10\x63' + payload
     del net.log[:]
     del net.frames[:]
+    hist_ = getattr(net, 'history', None)
+    if hist_ is None:
+        hist_ = net.history = []
     base = {'topology': topo.describe(), 'source': [snet, smac.hex()], 'dest_kind': kind, 'dest': _jsonable(dest),
-            'payload': payload.hex()}
+            'payload': payload.hex(), 'installed_caches': bool(getattr(net, 'installed', False)),
+            'history': [list(h) for h in hist_[-600:]]}        # what this internetwork has carried before (replayed first)
+    hist_.append(([snet, smac.hex()], _jsonable(dest), payload.hex()))
     try:
         net.stations[src].send(dest, payload)
         remaining = I.drain_upto(limit)
@@ -1010,19 +1032,16 @@ def check_concurrent(topo, sends, limit=WATCHDOG):
 
 
 def line_topo(rng, k):
-    """k routers in a line, k+1 networks, 1..2 stations each, random network numbers and station modes"""
+    """k routers in a line, k+1 networks, 1..2 stations each, random network numbers and station modes; MACs unique
+    per LAN only (assign_macs)"""
     numbers = rng.sample(range(1, 60), k + 1)
-    nets = collections.OrderedDict()
-    modes = {}
-    for n in numbers:
-        nets[n] = [bytes([m]) for m in rng.sample(range(1, 40), rng.randrange(1, 3))]
-        for mac in nets[n]:
-            modes[(n, mac)] = rng.choice(['net', 'net', 'addr', 'none'])
-    routers = []
+    router_nets = []
     for i in range(k):
-        ports = [(numbers[i], bytes([101 + i])), (numbers[i + 1], bytes([101 + i]))]
+        ports = [numbers[i], numbers[i + 1]]
         rng.shuffle(ports)
-        routers.append(ports)
+        router_nets.append(ports)
+    nstations = {n: rng.randrange(1, 3) for n in numbers}
+    nets, routers, modes = assign_macs(rng, numbers, router_nets, nstations)
     return Topo(nets, routers, modes)
 
 
@@ -1134,6 +1153,7 @@ def direct(rng, tier, focus=()):
                 nontriv.add((ra, t, 'cold', k))
             # installed (correct) caches
             net = build(topo)
+            net.installed = True
             for e in warm_events(topo):
                 node_of(net, topo, e[1]).learn(e[2], e[3], e[4])
             for k, (src, kind, dest, rec) in enumerate(triples[:40 if big else 12]):
@@ -1171,6 +1191,34 @@ def direct(rng, tier, focus=()):
         hist['concurrent/' + ('line' if t % 3 != 2 else 'tree')] += 1
         nontriv.add(('concurrent', t))
         note(f)
+    # --- warm one way, cold the other way: traffic from one end first (the routers learn the way back from its
+    #     SADR), then every still-cold station of the far network sends towards that end.  MACs are unique per LAN only,
+    #     so the cold sender routinely has the same MAC value as some router port elsewhere on the path.
+    for t in range(_n(400 if big else 60)):
+        topo = line_topo(rng, 2 + t % 3) if t % 2 == 0 else rnd_tree(rng, 6)
+        if len(topo.routers) < 2:
+            topo = line_topo(rng, 2)
+        dist = topo.dist()
+        nets_ = list(topo.nets)
+        a, b = max(((x, y) for x in nets_ for y in nets_ if x != y), key=lambda xy: (dist[xy[0]][xy[1]], rng.random()))
+        net = build(topo)
+        first = (b, rng.choice(topo.nets[b]))
+        tgt0 = rng.choice(topo.nets[a])
+        seq = [(first, 'unicast-remote', ('rs', a, tgt0), [(a, tgt0)])]
+        for m in topo.nets[a]:
+            if rng.random() < 0.3:
+                seq.append(((a, m), 'remote-broadcast', ('rb', b), [(b, x) for x in topo.nets[b]]))
+            else:
+                x = rng.choice(topo.nets[b])
+                seq.append(((a, m), 'unicast-remote', ('rs', b, x), [(b, x)]))
+        for k, (src, kind, dest, rec) in enumerate(seq):
+            f = check_send(net, topo, src, kind, dest, rec, bytes([t % 256, k, 0x3c]), reply=(k > 0))
+            n_eval += 1
+            hist['one-way-warm/' + kind] += 1
+            nontriv.add(('oneway', t, k))
+            note(f)
+            if f is not None:
+                break
     # --- an application that lives on a router
     for t in range(_n(40 if big else 10)):
         topo = rnd_tree(rng, 5, apps=True)
@@ -1274,6 +1322,13 @@ def _replay(f):
     elif 'topology' in f and 'source' in f and 'concurrent' not in f and 'burst' not in f:
         topo = Topo.from_desc(f['topology'])
         net = build(topo)
+        if f.get('installed_caches'):
+            for e in warm_events(topo):
+                node_of(net, topo, e[1]).learn(e[2], e[3], e[4])
+        for hs, hd, hp in f.get('history', []):
+            net.stations[(hs[0], bytes.fromhex(hs[1]))].send(_unjson(hd), bytes.fromhex(hp))
+            if I.drain_upto(WATCHDOG):
+                I.reset_tasks()
         src = (f['source'][0], bytes.fromhex(f['source'][1]))
         dest = _unjson(f['dest'])
         for kind, d, rec in all_dests(topo, src) + [('reply', dest, [])]:
